@@ -15,7 +15,7 @@ THEOREMS = {
     'C17': ['Cctz.C17.getWeekday_spec', 'Cctz.C17.getYearday_spec', 'Cctz.C17.nextWeekday_spec',
             'Cctz.C17.prevWeekday_spec', 'Cctz.C17.weekday_spec_sanity',
             'Cctz.C17Idiom.weekday_of_result', 'Cctz.C17Idiom.onOrAfter', 'Cctz.C17Idiom.onOrBefore',
-            'Cctz.C17Idiom.idiom_fixpoint', 'Cctz.C17Idiom.week_step'],
+            'Cctz.C17Idiom.idiom_fixpoint', 'Cctz.C17Idiom.week_step', 'Cctz.C17Idiom.yearday_inverse', 'Cctz.C17Idiom.weekday_difference'],
 }
 
 PANEL = [(0, 0, 0, 0, 0), (0, 0, 24, 0, 0), (0, 0, -1, 0, 0), (0, 0, 0, 60, 0), (0, 0, 0, -1, 0), (0, 0, 0, 0, 60),
